@@ -995,7 +995,9 @@ class WCS(GWCSAPIMixin):
             # #         AND FAILED-TO-CONVERGE POINTS                   ##
             # ############################################################
             # Identify diverging and/or invalid points:
-            invalid = ((~np.all(np.isfinite(pix), axis=1)) &
+            # (a point whose last correction is NaN has not been solved either,
+            # even if the correction was not applied and its pixel is still finite)
+            invalid = ((~np.all(np.isfinite(pix), axis=1) | np.isnan(dn)) &
                        (np.all(np.isfinite(world0), axis=1)))
 
             # When detect_divergence is False, dnprev is outdated
